@@ -491,6 +491,45 @@ def sec_switches(rep):
     parallel(rep, items, switch_worker, chunk=1)
 
 
+def sec_label_moments(rep):
+    """Bounded stand-in for the label-definition lemma: the stored convolved kernels have the
+    Mellin moments of the ordered products of the LO kernels, M_N[A x B] = M_N[A] M_N[B], for
+    N = 1..8 (exact term-wise integration of the normal forms; a finite set of N, hence bounded)."""
+    import mpmath as mp
+
+    from pvc.moments import mellin_moment, NotIntegrable
+    from yadism.coefficient_functions import splitting_functions as split
+    from . import sites as S
+    from .c04 import parts
+
+    sy = H.Sy(extra="z")
+    pre = [sy.z > 0, sy.z < 1]
+    tab = {}
+    for t in split.raw_labels:
+        tab.update(t)
+    products = {"P_qq_0^2": ("P_qq_0", "P_qq_0"), "P_qg_0P_gq_0": ("P_qg_0", "P_gq_0"), "P_qq_0P_qg_0": ("P_qq_0", "P_qg_0"), "P_qg_0P_gg_0": ("P_qg_0", "P_gg_0")}
+    for lab, (a, b) in products.items():
+        for nf in (3, 5):
+            bad = []
+            try:
+                with rebind(*S.stub_binds(sy)):
+                    P = {k: parts(sy, tab[k](nf), sy.z) for k in (lab, a, b)}
+                # gluon-type kernels (P_gq, P_gg, and products starting in the quark sector and ending on
+                # the gluon) have a 1/z pole: start at N = 2 there
+                n0 = 2
+                for N in range(n0, 9):
+                    ml, ma, mb = (mellin_moment(P[k], sy.z, N, pre) for k in (lab, a, b))
+                    if abs(ml - ma * mb) > mp.mpf(10) ** -12 * max(1, abs(ml)):
+                        bad.append((N, float(ml), float(ma * mb)))
+                ok, detail = not bad, f"N = {n0}..8: {bad[:2] or 'all equal to 12 digits (the kernels contain double constants)'}"
+                st = PROVED if ok else REFUTED
+            except NotIntegrable as e:
+                ok, detail, st = False, f"not reducible to the integral table: {e}", UNDECIDED
+            o = Ob(f"C05/label-definition/{lab} = {a} x {b}/nf={nf}", "bounded", st, "moments", 0, detail, {} if ok else {"moments": bad[:3]}, {})
+            o.bounded = True
+            rep.add(o)
+
+
 def sec_apply_pdf(rep):
     """Power bookkeeping of the contraction that the RGE statement is about: ESFResult.apply_pdf
     multiplies the (k,0,i,j) tensor by a_s(xiR Q)^k ln(1/xiR^2)^i ln(1/xiF^2)^j and evaluates the PDF
@@ -525,7 +564,7 @@ def run(rep, tier, seed, only=None):
         "one-node grid with formal operators: the code uses the operators only linearly (no operator x operator product is computed at run time), so the identities lift to every grid size",
     )
     rep.stub("eko.beta -> symbolic beta0/beta1", "conv.convolve_vector -> symbolic raw coefficients c_o", "Combiner -> one abstract kernel", "ScaleVariations.operators pre-filled with formal 1x1 operators (compute_raw's cache branch)")
-    for nm, f in (("tables", sec_tables), ("rge", sec_rge), ("switches", sec_switches), ("apply_pdf", sec_apply_pdf)):
+    for nm, f in (("tables", sec_tables), ("rge", sec_rge), ("switches", sec_switches), ("apply_pdf", sec_apply_pdf), ("labels", sec_label_moments)):
         if only and only not in nm:
             continue
         rep.add(guarded(f"C05/{nm}", lambda f=f: (f(rep), [])[1]))
